@@ -158,6 +158,8 @@ def send_strings(s):
 
 
 def all_sends(c):
+    if c["k"] == "session":
+        return [o["send"] for o in c["ops"] if o["op"] == "send"]
     if c["k"] == "loop":
         return [s for m in c["msgs"] for s in m["sends"]]
     return c["sends"] if c["k"] == "case" else [s for ss in c["senders"] for s in ss]
@@ -355,6 +357,15 @@ def ordered_py(t):
     if isinstance(t, list):
         return [ordered_py(x) for x in t]
     return t
+
+
+def pairs_dumps(t):
+    """json.dumps of the reader's tree, keeping duplicate members (a dict would drop them)"""
+    if isinstance(t, Obj):
+        return "{" + ", ".join(json.dumps(k) + ": " + pairs_dumps(v) for k, v in t.members) + "}"
+    if isinstance(t, list):
+        return "[" + ", ".join(pairs_dumps(x) for x in t) + "]"
+    return json.dumps(t)
 
 
 def is_merge(seq, lists):
@@ -565,7 +576,9 @@ class C03(core.Property):
                    "spec_decode_frames", "send_data_tree", "do_send_frames", "sender_stream_decodes",
                    "escape_roundtrip", "scalar_pairfree", "read_value_dumps", "loads_dumps",
                    "interleave_flat_map", "interleave_map_inv", "merge_of_atomic_writes", "run_schedule_interleave",
-                   "flush_last", "send_ops_context_free", "flushed_when_send_returns", "sent_trees_expected", "sender_reads_back", "C03", "C03_reference_agrees",
+                   "flush_last", "send_ops_context_free", "flushed_when_send_returns",
+                   "do_send_render", "p_run_unseg", "session_per_writer", "session_writer_frames", "session_writer_bare",
+                   "C03_sessions_covered", "C03_session_example", "sent_trees_expected", "sender_reads_back", "C03", "C03_reference_agrees",
                    "C03_schedules_covered", "C03_refuted_nonatomic_write", "C03_pairfree_necessary", "C03_scalar_strings_ok", "C03_nonvacuous"]
     coq_targets = ["Props/C03.vo", "Extract/ExtractC03.vo"]
     rule = ("a case is a configuration (protocol flavour, writer kind, include_headers) and a list of sending calls "
@@ -809,6 +822,40 @@ class C03(core.Property):
             msgs.append({"kind": "hold", "sends": [self.hsend(rng, i, 0)], "result": S("held")})
         return {"k": "loop", "fl": rng.choice(["rpc", "lsp"]), "loop": loop, "msgs": msgs}
 
+    def session_scenarios(self):
+        n = lambda m, v: {"op": "send", "send": {"t": "notif", "method": S(m)["s"], "params": {"o": [[S("v")["s"], v]]}}}
+        r = lambda i, v: {"op": "send", "send": {"t": "resp", "id": i, "result": v}}
+        st = lambda w, h, dflt=False: {"op": "set", "w": w, "h": h, "dflt": dflt}
+        out = []
+        for fl in ("rpc", "lsp"):
+            for w in ("plain", "stdout"):
+                # a log message during start-up, then the transport, then normal traffic
+                out.append({"k": "session", "fl": fl, "ops": [n("window/logMessage", S("starting é")), st(w, True, True),
+                                                               r(1, S("ok")), n("x/y", 2)]})
+                # the writer replaced mid-session, and the framing mode changed with it
+                out.append({"k": "session", "fl": fl, "ops": [st(w, True), r(1, None), st("plain", False), n("a/b", S("\U0001F60B")),
+                                                               r(2, [1]), st(w, True, True), n("c/d", None), r(4, {"o": []})]})
+                out.append({"k": "session", "fl": fl, "ops": [n("early/1", 1), r(9, 9), st(w, False), n("bare", 3), st("stdout", True), r(3, 3)]})
+            out.append({"k": "session", "fl": fl, "ops": [n("never/sent", 0)]})
+            out.append({"k": "session", "fl": fl, "ops": [st("plain", True), st("stdout", True, True), n("second", 1)]})
+        return out
+
+    def rsession(self, rng):
+        ops = [{"op": "send", "send": self.rsend(rng, 2, raw=False, bad=False)} for _ in range(rng.choice([0, 1, 1, 2, 3]))]
+        for _ in range(rng.randint(1, 3)):
+            h = rng.random() < 0.7
+            ops.append({"op": "set", "w": rng.choice(["plain", "stdout"]), "h": h, "dflt": h and rng.random() < 0.5})
+            ops.extend({"op": "send", "send": self.rsend(rng, 2, raw=False, bad=False)} for _ in range(rng.choice([0, 1, 2, 3])))
+        return {"k": "session", "fl": rng.choice(["rpc", "lsp"]), "ops": ops}
+
+    def big_scheds(self):
+        """two senders, one frame of more than a pipe buffer / 64 KiB each, their transport operations
+        alternating: a writer that hands a large frame over in several calls tears it here"""
+        mk = lambda i: {"t": "notif", "method": S("big/%d" % i)["s"],
+                        "params": {"o": [[S("sender")["s"], i], [S("seq")["s"], 0], [S("pad")["s"], {"s": [0x78, 0xE9][i:i + 1] * 70000}]]}}
+        return [{"k": "sched", "fl": "rpc", "w": w, "h": True, "senders": [[mk(0)], [mk(1)]], "sched": sch}
+                for w, sch in (("stdout", [0, 1, 0, 1, 0, 1, 0, 1]), ("plain", [0, 1]))]
+
     def sched_scope(self):
         """two senders with one and two messages, every schedule of their operations (both writers)"""
         import itertools
@@ -852,8 +899,13 @@ class C03(core.Property):
         # concurrent senders under a scripted schedule of their transport operations
         scope = self.sched_scope()
         cases.extend(scope if not chk.quick else rng.sample(scope, 24))
+        cases.extend(self.big_scheds())
         for _ in range(chk.n(40, 1500)):
             cases.append(self.rsched(rng))
+        # the transport installed late / replaced
+        cases.extend(self.session_scenarios())
+        for _ in range(chk.n(80, 1500)):
+            cases.append(self.rsession(rng))
         # sends made inside handlers under the real read loops
         cases.extend(self.loop_scenarios())
         for _ in range(chk.n(40, 600)):
@@ -869,7 +921,8 @@ class C03(core.Property):
         for c in cases:
             try:
                 out.append(self.run_case(c) if c["k"] == "case" else self.run_sched(c) if c["k"] == "sched"
-                           else self.run_loop(c) if c["k"] == "loop" else self.run_other(chk, c))
+                           else self.run_loop(c) if c["k"] == "loop" else self.run_session(c) if c["k"] == "session"
+                           else self.run_other(chk, c))
             except Exception as ex:
                 out.append(["raise", type(ex).__name__])
         return out
@@ -890,7 +943,7 @@ class C03(core.Property):
             return None if r is None else [b.hex() for b in r]
         if k == "oracle-loads":
             try:
-                return json.dumps(ordered_py(py_loads(bytes.fromhex(c["body"])))).encode("ascii").hex()
+                return pairs_dumps(py_loads(bytes.fromhex(c["body"]))).encode("ascii").hex()
             except _Bad:
                 return None
         if k == "oracle-roundtrip":
@@ -933,6 +986,26 @@ class C03(core.Property):
                 perform(p, s)
                 per.append(log[k:])
         return {"sends": per}
+
+    def run_session(self, c):
+        """One protocol object from its construction on: sends before any transport exists, set_writer
+        (headers on / off, default argument), the writer replaced by another one.  Observed: what each
+        writer object received, ever."""
+        from pygls.io_ import StdoutWriter
+        p = make_protocol(c["fl"])
+        logs = []
+        for o in c["ops"]:
+            if o["op"] == "set":
+                log = []
+                logs.append(log)
+                w = PlainWriter(log) if o["w"] == "plain" else StdoutWriter(RawStream(log))
+                if o["h"] and o.get("dflt"):
+                    p.set_writer(w)
+                else:
+                    p.set_writer(w, include_headers=o["h"])
+            else:
+                perform(p, o["send"])
+        return {"writers": logs}
 
     def run_loop(self, c):
         """Sends made where they really happen: inside request / notification handlers running under
@@ -1130,6 +1203,9 @@ class C03(core.Property):
             return "roundtrip " + tok_str(c["s"])
         if k == "loop":
             return "case 2 1 " + tok_sends(self.loop_sends(c))
+        if k == "session":
+            return f"session {len(c['ops'])} " + " ".join(
+                f"0 {WR[o['w']]} {1 if o['h'] else 0}" if o["op"] == "set" else "1 " + tok_send(o["send"]) for o in c["ops"])
         if k not in ("case", "sched"):
             return "dumps 0"
         cfg = f"{WR[c['w']]} {1 if c['h'] else 0}"
@@ -1151,7 +1227,7 @@ class C03(core.Property):
             return {"M": None if t[0] == "0" else hx(t[1]), "S": None, "guard": True}
         if k == "oracle-roundtrip":
             return {"M": t[1] == "1", "S": None, "guard": True}
-        if k not in ("case", "sched", "loop"):
+        if k not in ("case", "sched", "loop", "session"):
             return {"M": "ok", "S": "ok", "guard": True}
         it = iter(t)
         nxt = lambda: next(it)
@@ -1163,6 +1239,15 @@ class C03(core.Property):
         def expects():
             return [[int(nxt()), hexs()] for _ in range(int(nxt()))]
         guard = nxt() == "1"
+        if c["k"] == "session":
+            per = [[op() for _ in range(int(nxt()))] for _ in range(int(nxt()))]
+            ws = [{"h": nxt() == "1", "t": nxt() == "1", "expect": expects()} for _ in range(int(nxt()))]
+            if nxt() != "1":
+                raise RuntimeError("model self-check failed (session)")
+            kinds = [o["w"] for o in c["ops"] if o["op"] == "set"]
+            for w_, kd in zip(ws, kinds):
+                w_["flush"] = kd == "stdout"
+            return {"M": {"writers": per}, "S": {"writers": ws} if guard else None, "guard": guard, "klass": None}
         if c["k"] == "loop":
             per = [[op() for _ in range(int(nxt()))] for _ in range(int(nxt()))]
             exp = expects()
@@ -1217,6 +1302,23 @@ class C03(core.Property):
             return False
 
     def satisfies(self, c, impl, S):
+        if c["k"] == "session":
+            if not isinstance(impl, dict) or len(impl["writers"]) != len(S["writers"]):
+                return False
+            for ops, w in zip(impl["writers"], S["writers"]):
+                if not w["t"]:
+                    continue
+                if w["flush"] and [o[0] for o in ops] != ["w", "f"] * (len(ops) // 2):
+                    return False
+                chunks = [bytes.fromhex(o[1]) for o in ops if o[0] == "w"]
+                # headers on: the writer's whole byte stream is a concatenation of complete frames;
+                # headers off: every write call carries exactly one whole body
+                bodies = py_decode(b"".join(chunks)) if w["h"] else chunks
+                if bodies is None or len(bodies) != len(w["expect"]):
+                    return False
+                if not all(self.match_expect(b, e) for b, e in zip(bodies, w["expect"])):
+                    return False
+            return True
         if c["k"] == "loop":
             if not isinstance(impl, dict):
                 return False
@@ -1293,6 +1395,9 @@ class C03(core.Property):
         return impl == M
 
     def nontrivial(self, c):
+        if c["k"] == "session":
+            first = next((i for i, o in enumerate(c["ops"]) if o["op"] == "set"), len(c["ops"]))
+            return first > 0 or sum(1 for o in c["ops"] if o["op"] == "set") >= 2
         if c["k"] == "loop":
             return any(m["sends"] for m in c["msgs"])
         if c["k"] not in ("case", "sched"):
@@ -1348,6 +1453,11 @@ class C03(core.Property):
             if "id" in s and s["id"] != 1:
                 d = dict(s); d["id"] = 1
                 yield d
+        if c["k"] == "session":
+            for i in range(len(c["ops"])):
+                d = dict(c); d["ops"] = c["ops"][:i] + c["ops"][i + 1:]
+                yield d
+            return
         if c["k"] == "loop":
             ms = c["msgs"]
             for i in range(len(ms)):
@@ -1399,7 +1509,8 @@ class C03(core.Property):
         bounded scope: every boundary string x the four message kinds x three writers, and every
         schedule of two concurrent senders at the granularity of one transport call (the gating
         writer: a frame emitted in more than one call is torn by one of these schedules)."""
-        cases = self.loop_scenarios() + self.boundary_cases() + self.sched_scope()
+        cases = (self.session_scenarios() + self.loop_scenarios() + self.boundary_cases() + self.sched_scope()
+                 + self.big_scheds())
         res = core.evaluate(self, chk, cases)
         return [r for r in res if r["verdict"] == "violation"][:1]
 
@@ -1528,7 +1639,7 @@ class C03(core.Property):
             b = bodies[k]
             try:
                 t = py_loads(b)
-                want = json.dumps(ordered_py(t)).encode("ascii")
+                want = pairs_dumps(t).encode("ascii")
                 nl += 1
             except _Bad:
                 want = None
@@ -1757,9 +1868,15 @@ class C03(core.Property):
     def distribution(self, cases):
         d = {}
         for c in cases:
-            if c["k"] not in ("case", "sched", "loop"):
+            if c["k"] not in ("case", "sched", "loop", "session"):
                 continue
-            if c["k"] == "loop":
+            if c["k"] == "session":
+                key = f"session/{c['fl']}"
+                for o in c["ops"]:
+                    if o["op"] == "set":
+                        kk = f"set_writer/{o['w']}/{'hdr' if o['h'] else 'nohdr'}"
+                        d[kk] = d.get(kk, 0) + 1
+            elif c["k"] == "loop":
                 key = f"loop/{c['fl']}/{c['loop']}"
                 for m in c["msgs"]:
                     d["handler/" + m["kind"]] = d.get("handler/" + m["kind"], 0) + 1
